@@ -220,6 +220,16 @@ def r2(ctx, F, rule, sfx):
         wterms.add(repr(p - l))
         wterms.add(repr(l + w_ - p))
     ctx.check(rule, 'distance-to-nearest-own-face' + sfx, terms == wterms, sorted(terms), 'min over the six face distances', where(mf), key_extra='face')
+    # the distance candidates are ranked by: squared Euclidean distance between the two particle positions
+    pd = F.body_by_suffix('part::Part::distance_squared')
+    ipd = I.Interp(F)
+    pa = I.St('part::Part', 'Part', {'x': I.sym_vec3('a')}, I.Sym(nf.sym_atom('pa'), 'part::Part'))
+    pb = I.St('part::Part', 'Part', {'x': I.sym_vec3('b')}, I.Sym(nf.sym_atom('pb'), 'part::Part'))
+    dv, _ = ipd.call_body(pd, [ipd.ref_to(pa), ipd.ref_to(pb)])
+    ctx.evaluations += ipd.evaluations
+    A_, B_ = c3(I.sym_vec3('a')), c3(I.sym_vec3('b'))
+    wantd = sum(((A_[c] - B_[c]) ** 2 for c in range(3)), RF.const(0))
+    ctx.check(rule, 'candidate-distance-is-squared-euclid' + sfx, as_rf(dv) == wantd, repr(dv)[:120], '|x_a - x_b|^2 over all three axes', where(pd), key_extra='part-distance')
     # knn: stop test and skip test
     kb = F.body_by_suffix('space::Space::knn')
     no = [x['path'] for x in F.bodies if strip_generics(x['path']).endswith(('Space::get_r_ring', 'Cell::min_distance_squared', 'Cell::min_distance_to_face', 'Part::distance_squared'))]
